@@ -126,6 +126,35 @@ func BindSpecs(x *Exec, lr *LoadResult, pkgPath string, cf *ContractFile, res *P
 	return bound
 }
 
+// LoadBindings reads the reference locals and computes the alias maps of the
+// bound functions. With write=true the current locals are recorded instead.
+func ApplyBindings(x *Exec, lr *LoadResult, bound map[*ssa.Function]*FuncSpec, path string, write bool) {
+	ref := map[string][]VarBinding{}
+	if b, err := os.ReadFile(path); err == nil {
+		json.Unmarshal(b, &ref)
+	}
+	if x.Aliases == nil {
+		x.Aliases = map[*ssa.Function]map[string]string{}
+	}
+	for fn, sp := range bound {
+		key := sp.Pkg + "::" + sp.Name
+		cur := LocalsOf(fn, lr.Pkgs)
+		if write {
+			ref[key] = cur
+			continue
+		}
+		if r, ok := ref[key]; ok {
+			if al := Aliases(r, cur); len(al) > 0 {
+				x.Aliases[fn] = al
+				x.diag("%s: renamed locals bound by (type, ordinal): %v", key, al)
+			}
+		}
+	}
+	if write {
+		WriteJSON(path, ref)
+	}
+}
+
 // VerifyAll verifies every non-trusted bound function.
 func VerifyAll(x *Exec, bound map[*ssa.Function]*FuncSpec, res *PassResult) {
 	var fns []*ssa.Function
